@@ -328,8 +328,9 @@ pub struct GenericMutexLockFuture<'a, MutexType: RawMutex, T: 'a> {
 
 // Safety: Futures can be sent between threads as long as the underlying
 // mutex is thread-safe (Sync), which allows to poll/register/unregister from
-// a different thread.
-unsafe impl<'a, MutexType: RawMutex + Sync, T: 'a> Send
+// a different thread. Polling the future on another thread yields a guard
+// and thereby access to the protected value there, so it must be Send.
+unsafe impl<'a, MutexType: RawMutex + Sync, T: Send + 'a> Send
     for GenericMutexLockFuture<'a, MutexType, T>
 {
 }
